@@ -57,7 +57,7 @@ func (t *Ty) AssignKey() string {
 var aliasRe = regexp.MustCompile(`\b(byte|rune)\b`)
 
 func mangle(expr string) string {
-	r := strings.NewReplacer("*", "P", "[]", "S", "[2]", "A2", "map[", "M", "]", "_", ".", "_", " ", "", "{", "", "}", "", ";", "")
+	r := strings.NewReplacer("*", "P", "[]", "S", "[2]", "A2", "map[", "M", "[", "G", "]", "_", ".", "_", " ", "", "{", "", "}", "", ";", "")
 	return r.Replace(expr)
 }
 
@@ -343,6 +343,13 @@ type KeyMaps2 struct {
 	MR map[KR]int
 }
 
+// Box is generic; each instantiation is a named struct of its own.
+type Box[T any] struct {
+	V T
+	L []T
+	P *T
+}
+
 // Unit has nothing to compare, OnlyPad only padding.
 type Unit struct{}
 
@@ -503,6 +510,13 @@ type Under struct {
 	_tags []string
 }
 
+// Gen is generic and has an unexported field.
+type Gen[T any] struct {
+	V      T
+	hidden int
+	L      []T
+}
+
 // Ver has no methods; the Ver of the other package named ext declares Equal and Compare.
 type Ver struct {
 	Major int
@@ -602,6 +616,10 @@ func structTys() []*Ty {
 		mk("SameName", false, "ext", "unexported", "extpriv", "samename"),
 		mk("KeyMaps", false),
 		mk("KeyMaps2", false),
+		mk("Box[int]", false, "generic"),
+		mk("Box[Flat]", false, "generic"),
+		mk("Box[[]string]", false, "generic"),
+		mk("ext.Gen[string]", false, "ext", "unexported", "extpriv", "generic"),
 		mk("Units", false),
 		mk("Shape", false),
 		mk("Pad", false, "unexported", "localpriv"),
